@@ -32,6 +32,7 @@ type c06Case struct {
 	Calls   []*jv.V          `json:"calls"`
 	Paths   []c06Path        `json:"paths"`
 	Markers []string         `json:"markers"`
+	Combos  []string         `json:"combos,omitempty"`
 }
 
 type c06Path struct {
@@ -252,6 +253,29 @@ func genC06(t *rapid.T) *c06Case {
 		}
 		chainHops = append(chainHops, hops)
 	}
+	// combination properties: within ONE call a failing branch that entered some resources is
+	// followed by another branch (anyOf/oneOf/if/not tolerate the failure), so scope entries of a
+	// failed branch must have been removed again
+	if npaths >= 2 {
+		for k, nk := 0, n(3, "ncombos"); k < nk; k++ {
+			a, b := n(npaths, "comboA"), n(npaths, "comboB")
+			ra := jv.ObjV(jv.Member{K: "$ref", V: jv.StrV(fmt.Sprintf("#/$defs/h%d_0", a))})
+			rb := jv.ObjV(jv.Member{K: "$ref", V: jv.StrV(fmt.Sprintf("#/$defs/h%d_0", b))})
+			var combo *jv.V
+			switch n(4, "combokind") {
+			case 0:
+				combo = jv.ObjV(jv.Member{K: "anyOf", V: jv.ArrV(ra, rb)})
+			case 1:
+				combo = jv.ObjV(jv.Member{K: "oneOf", V: jv.ArrV(ra, rb)})
+			case 2:
+				combo = jv.ObjV(jv.Member{K: "if", V: ra}, jv.Member{K: "then", V: jv.BoolV(true)}, jv.Member{K: "else", V: rb})
+			default:
+				combo = jv.ObjV(jv.Member{K: "allOf", V: jv.ArrV(jv.ObjV(jv.Member{K: "not", V: ra}), rb)})
+			}
+			props.Set(fmt.Sprintf("c%d", k), combo)
+			c.Combos = append(c.Combos, fmt.Sprintf("c%d", k))
+		}
+	}
 	root := res[0].v
 	root.Set("properties", props)
 	for i := 1; i < nres; i++ {
@@ -269,6 +293,9 @@ func genC06(t *rapid.T) *c06Case {
 		for j, np := 0, 1+n(2, "npathsincall"); j < np; j++ {
 			p := n(npaths, "callpath")
 			key := fmt.Sprintf("p%d", p)
+			if len(c.Combos) > 0 && n(2, "usecombo") == 0 {
+				key = c.Combos[n(len(c.Combos), "combo")]
+			}
 			if !inst.Has(key) {
 				inst.Set(key, jv.StrV(rapid.SampledFrom(c.Markers).Draw(t, "marker")))
 			}
